@@ -18,7 +18,7 @@ out = {'dir': a.dir}
 try:
     subprocess.run(['git', '-C', '/repo', 'worktree', 'add', '-q', '--detach', scratch + '/wt', 'HEAD'], check=True)
     wt = scratch + '/wt'
-    demo = os.path.join(a.dir, a.demo)
+    demo = os.path.abspath(os.path.join(a.dir, a.demo))
     env = dict(os.environ, PYTHONPATH=wt + '/src')
     if os.path.exists(demo):
         out['demo_without'] = subprocess.run(['/venv/bin/python', demo], env=env, cwd=wt, capture_output=True, timeout=600).returncode
